@@ -14,7 +14,7 @@
     that do not go through the model at all. *)
 From Coq Require Import List Arith ZArith NArith QArith Qabs Lia Bool Floats.
 Import ListNotations.
-Require Import Clarabel.Base.Ops Clarabel.Base.Dyadic Clarabel.Qdldl.Model Clarabel.Qdldl.SpecFactorCorrect.
+Require Import Clarabel.Base.Ops Clarabel.Base.Dyadic Clarabel.Qdldl.Model.
 Local Open Scope nat_scope.
 
 Definition andc (a b : N) : N := N.max a b.
@@ -182,16 +182,7 @@ Definition run (A : spm (T:=T)) (S : settings (T:=T)) (first : snap) (ops : list
   let c0 := cmp_snap A F first in
   match F with
   | Err _ => andc c0 (ofb (match ops with [] => true | _ => false end))
-  | Ok F' =>
-      (* the hypothesis of [stmt_factor_correct_partial] (elimination reach closed and
-         topologically ordered in every row), evaluated on every sample *)
-      let w := f_ws F' in
-      let PA := w_triuA w in
-      let c_reach :=
-        if s_logical S then 0%N
-        else ofb (reach_closed_all O (sn PA) (colptr PA) (rowval PA) (nzval PA) (w_etree w)
-                    (mkFP false (w_Dsigns w) (w_reg_enable w) (w_eps w) (w_delta w))) in
-      andc c_reach (r_code (fold_left (step S) ops (mkRS F A c0)))
+  | Ok _ => r_code (fold_left (step S) ops (mkRS F A c0))
   end.
 
 End Run.
